@@ -186,6 +186,7 @@ def main():
             i += 1
     seed = int(os.environ.get("VERIF_SEED", "0"))
     core.RUN_TAG = prop
+    core.RUN_TIER = tier
     pm = importlib.import_module("harness.props." + prop)
     R = core.Results(prop, tier, seed)
 
